@@ -610,6 +610,176 @@ theorem T3_map_is_the_set_of_changes (M : Nat) (sorted : List CPeer) (newOpt : L
   · simp only [hc, haddr, Bool.false_eq_true, if_false]
     exact hex
 
+theorem same_addr_eq (s : CState) (hnd : (s.map (·.addr)).Nodup) (p q : CPeer) (hp : p ∈ s) (hq : q ∈ s)
+    (h : p.addr = q.addr) : p = q := by
+  induction s with
+  | nil => cases hp
+  | cons x xs ih =>
+    simp only [List.map_cons, List.nodup_cons, List.mem_map, not_exists, not_and] at hnd
+    rcases List.mem_cons.mp hp with rfl | hp'
+    · rcases List.mem_cons.mp hq with rfl | hq'
+      · rfl
+      · exact absurd h.symm (hnd.1 q hq')
+    · rcases List.mem_cons.mp hq with rfl | hq'
+      · exact absurd h (hnd.1 p hp')
+      · exact ih hnd.2 hp' hq'
+
+/-! ### "…so each peer's view agrees with the client's" -/
+
+section View
+
+/-- What each peer was last told about our choking it (BEP 3: a connection starts choked). -/
+abbrev Told := Nat → Bool
+
+/-- Every connection task writes what its entry of the broadcast map says (`C14_trace`): `Choke`, `Unchoke` or nothing. -/
+def toldAfterMap (told : Told) (m : List (Nat × Bool)) : Told :=
+  fun a => match frameFor m a with
+    | some b => b
+    | none => told a
+
+/-- One manager operation together with the choke/unchoke messages it makes the connection tasks write: the `Unchoke`
+    that may accompany the reply to a bitfield, and the messages of a rotation's broadcast. -/
+def vstep (M : Nat) (s : CState) (told : Told) : COp → CState × Told
+  | .add a => (cstepG M s (.add a), fun x => if x = a then true else told x)
+  | .bitfield a =>
+    let u := match s.find? (·.addr = a) with
+      | some p => bitfieldUnchokes M s p
+      | none => false
+    (cstepG M s (.bitfield a), fun x => if x = a ∧ u = true then false else told x)
+  | .rotate sorted newOpt => ((rotate M sorted newOpt).1, toldAfterMap told (rotate M sorted newOpt).2)
+  | .interested a => (cstepG M s (.interested a), told)
+  | .notInterested a => (cstepG M s (.notInterested a), told)
+  | .kill a => (cstepG M s (.kill a), told)
+
+theorem vstep_state (M : Nat) (s : CState) (told : Told) (op : COp) : (vstep M s told op).1 = cstepG M s op := by
+  cases op <;> rfl
+
+/-- The peers' view agrees with the client's: every connected peer was last told exactly our present choke flag. -/
+def Agree (s : CState) (told : Told) : Prop := ∀ p ∈ s, told p.addr = p.amChoked
+
+theorem zip_of_map_eq : ∀ (l1 l2 : List CPeer), l1.map (·.addr) = l2.map (·.addr) →
+    ∀ b ∈ l2, ∃ a, (a, b) ∈ l1.zip l2 ∧ a.addr = b.addr
+  | [], [], _, b, hb => by cases hb
+  | [], _ :: _, h, _, _ => by simp at h
+  | _ :: _, [], h, _, _ => by simp at h
+  | x :: xs, y :: ys, h, b, hb => by
+    simp only [List.map_cons, List.cons.injEq] at h
+    simp only [List.mem_cons] at hb
+    rcases hb with rfl | hb
+    · exact ⟨x, by simp, h.1⟩
+    · obtain ⟨a, ha, hab⟩ := zip_of_map_eq xs ys h.2 b hb
+      exact ⟨a, by simp [ha], hab⟩
+
+theorem mem_updatePeer (s : CState) (a : Nat) (f : CPeer → CPeer) (q : CPeer) (h : q ∈ updatePeer s a f) :
+    ∃ p ∈ s, q = if p.addr = a then f p else p := by
+  unfold updatePeer at h
+  simp only [List.mem_map] at h
+  obtain ⟨p, hp, rfl⟩ := h
+  exact ⟨p, hp, rfl⟩
+
+theorem vstep_agree (M O : Nat) (s : CState) (told : Told) (op : COp) (hinv : Inv M O s) (hadm : op.admissible O s)
+    (h : Agree s told) : Agree (vstep M s told op).1 (vstep M s told op).2 := by
+  cases op with
+  | add a =>
+    intro p hp
+    simp only [vstep, cstepG, List.mem_cons, List.mem_filter] at hp
+    rcases hp with rfl | ⟨hp, hne⟩
+    · simp [vstep]
+    · have : ¬ p.addr = a := by simpa using hne
+      simp only [vstep, this, if_false]
+      exact h p hp
+  | kill a =>
+    intro p hp
+    simp only [vstep, cstepG, List.mem_filter] at hp
+    exact h p hp.1
+  | interested a =>
+    intro q hq
+    obtain ⟨p, hp, rfl⟩ := mem_updatePeer s a _ q hq
+    simp only [vstep]
+    split <;> simpa using h p hp
+  | notInterested a =>
+    intro q hq
+    obtain ⟨p, hp, rfl⟩ := mem_updatePeer s a _ q hq
+    simp only [vstep]
+    split <;> simpa using h p hp
+  | bitfield a =>
+    intro q hq
+    simp only [vstep, cstepG, opBitfield] at hq ⊢
+    obtain ⟨p, hp, rfl⟩ := mem_updatePeer s a _ q hq
+    by_cases hpa : p.addr = a
+    · -- the record found for `a` is this one (addresses are unique)
+      have hfind : s.find? (·.addr = a) = some p := by
+        cases hf : s.find? (·.addr = a) with
+        | none =>
+          have := List.find?_eq_none.mp hf p hp
+          simp [hpa] at this
+        | some p0 =>
+          have hp0 := List.mem_of_find?_eq_some hf
+          have ha0 : p0.addr = a := by simpa using List.find?_some hf
+          rw [same_addr_eq s hinv.nodup p0 p hp0 hp (by rw [ha0, hpa])]
+      simp only [hpa, if_true, hfind]
+      by_cases hu : bitfieldUnchokes M s p = true
+      · simp [hu]
+      · have hu' : bitfieldUnchokes M s p = false := by simpa using hu
+        simp only [hu', Bool.false_eq_true, and_false, if_false]
+        exact h p hp
+    · have hne : ¬ (p.addr = a ∧ (match s.find? (·.addr = a) with
+          | some p => bitfieldUnchokes M s p
+          | none => false) = true) := fun c => hpa c.1
+      simp only [hpa, if_false, hne]
+      exact h p hp
+  | rotate sorted newOpt =>
+    obtain ⟨hperm, _, _, hcand⟩ := hadm
+    have hnd : (sorted.map (·.addr)).Nodup := (hperm.map _).nodup_iff.mpr hinv.nodup
+    have hopt : ∀ p ∈ sorted, newOpt.contains p.addr = true → p.amChoked = true ∧ p.interested = true := by
+      intro p hp hc
+      have hmem : p.addr ∈ newOpt := by simpa using hc
+      obtain ⟨q, hq, hqa, hqc, hqi⟩ := hcand _ hmem
+      have : q = p := same_addr_eq s hinv.nodup q p hq (hperm.mem_iff.mp hp) hqa
+      rw [← this]; exact ⟨hqc, hqi⟩
+    have haddrs : sorted.map (·.addr) = (rotate M sorted newOpt).1.map (·.addr) := by
+      simp only [rotate]
+      rw [setOptimistic_addrs, rotLoop_addrs]
+    intro p' hp'
+    simp only [vstep] at hp' ⊢
+    obtain ⟨p, hz, hpa⟩ := zip_of_map_eq sorted _ haddrs p' hp'
+    have ht3 := T3_map_is_the_set_of_changes M sorted newOpt hnd hopt (p, p') hz
+    have hp : p ∈ s := hperm.mem_iff.mp (List.of_mem_zip hz).1
+    simp only [toldAfterMap, ← hpa, ht3, change]
+    by_cases hch : p.amChoked = p'.amChoked
+    · simp only [hch, ne_eq, not_true_eq_false, if_false]
+      rw [← hch]; exact h p hp
+    · simp [hch]
+
+/-- A history with the messages it causes. -/
+def vrun (M : Nat) : CState → Told → List COp → CState × Told
+  | s, told, [] => (s, told)
+  | s, told, op :: ops => vrun M (vstep M s told op).1 (vstep M s told op).2 ops
+
+/-- **T5 (C14, "each peer's view agrees with the client's").** Along every admissible history — connects, disconnects,
+    interest changes, bitfield arrivals, rotations with any rate order and any optimistic pick — after every operation
+    (once the tasks have written what the operation makes them write) every connected peer was last told exactly the
+    choke state the client has on record for it. -/
+theorem T5_peer_view_agrees (M O : Nat) (ops : List COp) (s : CState) (told : Told) (hinv : Inv M O s)
+    (hagree : Agree s told) (hrun : AdmissibleRun M O s ops) :
+    Agree (vrun M s told ops).1 (vrun M s told ops).2 := by
+  induction ops generalizing s told with
+  | nil => exact hagree
+  | cons op ops ih =>
+    simp only [vrun]
+    have hst := vstep_state M s told op
+    apply ih
+    · rw [hst]; exact step_inv M O s op hinv hrun.1
+    · exact vstep_agree M O s told op hinv hrun.1 hagree
+    · rw [hst]; exact hrun.2
+
+/-- From the empty session nobody has been told anything and nobody is connected. -/
+theorem T5_peer_view_agrees_from_start (ops : List COp) (hrun : AdmissibleRun MAX_UNCHOKED MAX_OPTIMISTIC [] ops) :
+    Agree (vrun MAX_UNCHOKED [] (fun _ => true) ops).1 (vrun MAX_UNCHOKED [] (fun _ => true) ops).2 :=
+  T5_peer_view_agrees MAX_UNCHOKED MAX_OPTIMISTIC ops [] _ (inv_nil _ _) (fun p hp => by cases hp) hrun
+
+end View
+
 /-! ### The connection task's side: own-state broadcasts on the wire (every script) -/
 
 section Wire
@@ -827,20 +997,6 @@ theorem tick_waits_for_rates (M rounds : Nat) (s : CState) (round : Nat) (r : Ra
     (pick : List Nat) (h : tickReady s r = false) :
     tick M rounds s round r sorted pick = (tickRound rounds round, none) := by
   unfold tick; simp [h]
-
-theorem same_addr_eq (s : CState) (hnd : (s.map (·.addr)).Nodup) (p q : CPeer) (hp : p ∈ s) (hq : q ∈ s)
-    (h : p.addr = q.addr) : p = q := by
-  induction s with
-  | nil => cases hp
-  | cons x xs ih =>
-    simp only [List.map_cons, List.nodup_cons, List.mem_map, not_exists, not_and] at hnd
-    rcases List.mem_cons.mp hp with rfl | hp'
-    · rcases List.mem_cons.mp hq with rfl | hq'
-      · rfl
-      · exact absurd h.symm (hnd.1 q hq')
-    · rcases List.mem_cons.mp hq with rfl | hq'
-      · exact absurd h (hnd.1 p hp')
-      · exact ih hnd.2 hp' hq'
 
 /-- **T2 at the timer.** After a tick that is carried out, the rotation postcondition holds for the rate that
     counts (`uploaded_rate` while downloading, `download_rate` when seeding). -/
